@@ -387,8 +387,13 @@ def dsrc(node):
   return f'D({node[0]!r}, [' + ', '.join(dsrc(c) for c in node[1]) + '])'
 
 
+PRELUDE_SHORT = 'import pyglove as pg\ng = pg.geno; D = pg.DNA\n'
+
+
 def wit(m, body):
-  return PRELUDE + f'spec = {src(m)}\n' + body
+  """Self-contained witness snippet: builds `spec` from the model, then body."""
+  pre = PRELUDE if has_kind(m, 'custom') else PRELUDE_SHORT
+  return pre + f'spec = {src(m)}\n' + body
 
 
 REJECTIONS = (ValueError, TypeError)
@@ -766,7 +771,7 @@ def drv_space_size(tier, seed):
   if tier == 'quick':
     w_all, w_rand, nmax, budget = 3, 5, 3, 60
   else:
-    w_all, w_rand, nmax, budget = 4, 5, 4, 1500
+    w_all, w_rand, nmax, budget = 4, 5, 4, 800
   rec = Recorder(PROP, 'space_size equals the brute-force member count',
                  scope=f'every Choices spec of weight<={w_all} (weight = number '
                        f'of candidate slots in the whole tree; n<={nmax}, k<=3, '
@@ -782,7 +787,12 @@ def drv_space_size(tier, seed):
   rest = [m for m in gen_dps(w_rand, nmax, 3, 3)
           if m not in seen and count_members(m) <= 5000]
   rest = r.sample(rest, min(budget, len(rest)))
-  for m in head + rest:
+  import time
+  t0 = time.time()
+  limit = 38 if tier == 'quick' else 530
+  for i, m in enumerate(head + rest):
+    if i >= len(head) and time.time() - t0 > limit:
+      break          # only the seeded sample is ever cut short
     want = count_members(m)
     spec = build(m)
     got = spec.space_size
@@ -797,8 +807,14 @@ def drv_space_size(tier, seed):
   return rec.result()
 
 
+def custom_iterable_roots():
+  """Custom points with a user next_dna_fn enumerating 'a', 'b'."""
+  return [SP(CU()), SP(leaf(2), CU()), SP(CU(), leaf(2)), SP(ONE([SCU, C])),
+          SP(CH(2, [SCU, C], False, True))]
+
+
 def _iteration_specs(tier, r):
-  specs = []
+  specs = custom_iterable_roots()
   if tier == 'quick':
     specs += leaf_family(4, 3)
     specs += handpicked_roots()
@@ -828,7 +844,7 @@ def drv_iteration(tier, seed):
              f'{full_cap}, otherwise successor checks at first/last/boundary '
              'and seeded random members'))
   r = rng(seed, 'c11.iter')
-  budget_s = 38 if tier == 'quick' else 520
+  budget_s = 36 if tier == 'quick' else 520
   import time
   t0 = time.time()
   for m in _iteration_specs(tier, r):
@@ -837,7 +853,7 @@ def drv_iteration(tier, seed):
     mem = members(m)
     _self_check(m, mem)
     spec = build(m)
-    cls = _multi_class(m)
+    cls = _multi_class(m) if is_finite(m) else 'custom-next_dna_fn'
     n = len(mem)
     if n <= full_cap:
       # --- full iteration with library-produced DNAs fed back --------------
@@ -853,10 +869,11 @@ def drv_iteration(tier, seed):
                  wit(m, 'list(spec.iter_dna())'))
         continue
       gs = [shape(d) for d in got]
-      rec.case(f'iter/count-vs-space_size/{cls}', src(m),
-               len(got) == spec.space_size,
-               f'{len(got)} DNAs iterated, space_size={spec.space_size}',
-               wit(m, 'assert len(list(spec.iter_dna())) == spec.space_size'))
+      if is_finite(m):
+        rec.case(f'iter/count-vs-space_size/{cls}', src(m),
+                 len(got) == spec.space_size,
+                 f'{len(got)} DNAs iterated, space_size={spec.space_size}',
+                 wit(m, 'assert len(list(spec.iter_dna())) == spec.space_size'))
       ok = [tkey(x) for x in gs] == [tkey(x) for x in mem]
       msg = ''
       if not ok:
@@ -897,9 +914,9 @@ def drv_iteration(tier, seed):
                  f'{len(unbound)} iterated DNAs have no spec attached', wit(
                      m, 'assert all(d.spec is not None for d in spec.iter_dna())'))
       idx = list(range(n)) if n <= 6 else sorted(set(
-          [0, n - 1, n - 2] + r.sample(range(n), 3)))
+          [0, n - 1] + r.sample(range(n), 2 if tier == 'quick' else 4)))
       # iteration resumed after a given (unbound) member, exclusive
-      if n >= 2:
+      if 2 <= n <= (16 if tier == 'quick' else 10**9):
         i = r.randrange(n - 1)
         try:
           tail = [shape(d) for d in itertools.islice(
@@ -973,7 +990,7 @@ def _membership_specs(tier, r):
   if tier != 'quick':
     specs += leaf_family(4, 3)
     specs += conditional_family([2, 3], [1, 2], [C, S2, SM, S22, SN, SF],
-                                80, r, 80)
+                                80, r, 160)
   return specs
 
 
@@ -1043,7 +1060,7 @@ def drv_membership(tier, seed):
       PROP, 'validate() and binding accept exactly the members',
       scope=('specs: leaf choices, hand-picked conditional/multi-element/deep '
              'specs, float/custom specs (thorough: + leaf family n<=4,k<=3 and '
-             '80 seeded conditional specs); inputs: every member (capped, '
+             '160 seeded conditional specs); inputs: every member (capped, '
              'seeded sample beyond), every one-step corruption of sampled '
              'members (value -> negative/out-of-range/other type/None, '
              'dropped/extra/swapped/duplicated children, child under leaf, '
@@ -1067,8 +1084,8 @@ def drv_membership(tier, seed):
     for api in ('validate', 'bind', 'bind-ctor'):
       _check_accept(rec, m, spec, api, kind, t)
   specs = _membership_specs(tier, r)
-  per_spec_members = 6 if tier == 'quick' else 14
-  per_spec_corrupt = 26 if tier == 'quick' else 70
+  per_spec_members = 6 if tier == 'quick' else 20
+  per_spec_corrupt = 26 if tier == 'quick' else 120
   for si, m in enumerate(specs):
     if time.time() - t0 > budget_s:
       break
@@ -1174,7 +1191,7 @@ def drv_random_and_sweeping(tier, seed):
   import time
   t0 = time.time()
   budget_s = 38 if tier == 'quick' else 500
-  draws = 4 if tier == 'quick' else 16
+  draws = 8 if tier == 'quick' else 40
   specs = leaf_family(4, 3) + handpicked_roots() + infinite_roots()
   if tier != 'quick':
     specs += conditional_family([2, 3], [1, 2, 3], [C, S2, SM, S22, SN, SF],
@@ -1229,9 +1246,7 @@ def drv_random_and_sweeping(tier, seed):
                  wit(m, f'import random\nassert {call}.spec is None'))
   # ---------------- sweeping ---------------------------------------------
   sweep = [m for m in leaf_family(3, 3) + handpicked_roots()
-           if is_finite(m) and count_members(m) <= (12 if tier == 'quick' else 24)]
-  if tier == 'quick':
-    sweep = sweep[:10] + r.sample(sweep[10:], min(14, len(sweep) - 10))
+           if is_finite(m) and count_members(m) <= (12 if tier == 'quick' else 36)]
   for m in sweep:
     if time.time() - t0 > budget_s:
       break
